@@ -326,7 +326,11 @@ def make_cls(name, mod):
 
 
 def apply(sim, e):
-    v = list(sim.do(tuple(e)))
+    try:
+        v = list(sim.do(tuple(e)))
+    except Exception as ex:  # noqa: BLE001
+        # e.g. the interface refuses to stop a cyclic task twice (python-can's socketcan backend does)
+        return [(f"C17:{type(sim).__name__.lower()}:{e[0]}:raises:{type(ex).__name__}", "the call is accepted", repr(ex)[:120])]
     v += sim.invariant()
     return v
 
